@@ -28,7 +28,7 @@ def partitions(n, maxp=None):
 
 
 @lru_cache(None)
-def trees(n, in_compound, history=True, final=True):
+def trees(n, in_compound, history=True, final=True, max_hist=1):
     """Canonical unordered rooted trees with kind labels obeying DESIGN.md §2 (WF2-WF5)."""
     res = []
     if n == 1:
@@ -44,7 +44,7 @@ def trees(n, in_compound, history=True, final=True):
             if kind == 'O' and len(parts) < 2:
                 continue
             seen = set()
-            for combo in itertools.product(*[trees(p, kind == 'C', history, final) for p in parts]):
+            for combo in itertools.product(*[trees(p, kind == 'C', history, final, max_hist) for p in parts]):
                 c = tuple(sorted(combo))
                 if c in seen:
                     continue
@@ -54,25 +54,33 @@ def trees(n, in_compound, history=True, final=True):
                     if not nonh:
                         continue
                     # initial must be a non-history child; at least one non-final sibling keeps charts alive
-                    if sum(1 for x in c if x[0] in HIST) > 1:
+                    if sum(1 for x in c if x[0] in HIST) > max_hist:
                         continue
                 res.append((kind, c))
     return tuple(res)
 
 
-def skeletons(nmin, nmax, history=True, final=True, require=None):
+def skeletons(nmin, nmax, history=True, final=True, require=None, max_hist=1):
     """All skeletons (root compound or orthogonal) with nmin..nmax states.
     require: None | 'history' (contains a history state)"""
     out = []
     for n in range(nmin, nmax + 1):
-        for t in trees(n, False, history, final):
+        for t in trees(n, False, history, final, max_hist):
             if t[0] not in ('C', 'O'):
                 continue
             r = repr(t)
             if require == 'history' and "'HS'" not in r and "'HD'" not in r:
                 continue
+            if require == 'multihist' and not _has_multi_hist(t):
+                continue
             out.append(t)
     return out
+
+
+def _has_multi_hist(t):
+    if t[0] == 'C' and sum(1 for c in t[1] if c[0] in HIST) > 1:
+        return True
+    return any(_has_multi_hist(c) for c in t[1])
 
 
 # --------------------------------------------------------------------------- tree queries
@@ -205,7 +213,8 @@ def has_variant(tree):
 
 
 # --------------------------------------------------------------------------- transition schemes
-def add_scheme_S(spec, event='e', send_subset=False, eventless_twin=False, counter=False):
+def add_scheme_S(spec, event='e', send_subset=False, eventless_twin=False, counter=False,
+                 internal_twin=False):
     """saturated: one transition per WF (source, target|internal) pair, guard G(tid, event)."""
     T = Tree(spec)
     trans = spec['transitions']
@@ -218,6 +227,13 @@ def add_scheme_S(spec, event='e', send_subset=False, eventless_twin=False, count
                     act += "; P('send', 'i%d'); send('i%d', v=%d)" % (tid, tid, tid)
                 trans.append({'source': s, 'target': t, 'event': event, 'guard': 'G(%d, event)' % tid,
                               'action': act, 'priority': 0, 'tid': tid})
+    if internal_twin:
+        # a second internal transition per state on the same event (two internal transitions of one state)
+        for st in T.order:
+            if T.kind(st) in TRANSITION_KINDS:
+                tid = len(trans)
+                trans.append({'source': st, 'target': None, 'event': event, 'guard': 'G(%d, event)' % tid,
+                              'action': "P('ac', %d)" % tid, 'priority': 0, 'tid': tid})
     if send_subset:
         for i, st in enumerate(spec['states']):
             key = 'on_entry' if i % 2 == 0 else 'on_exit'
